@@ -1004,7 +1004,8 @@ impl FromStr for Epoch {
             })?;
             // Iterate through the string to figure out where the numeric data starts and ends.
             let start_idx = format.len();
-            let num_str = s[start_idx..s.len() - ts.formatted_len()].trim();
+            // Remove the time scale as it was written (e.g. "GPS" is three bytes although GPST prints as four).
+            let num_str = s[start_idx..s.len() - ts_str.trim().len()].trim();
             let value: f64 = match lexical_core::parse(num_str.as_bytes()) {
                 Ok(val) if f64::is_finite(val) => val,
                 _ => {
